@@ -243,6 +243,11 @@ void Ctx::c10() {
         if (bc && bc->connack_sent_idx >= 0) continue;
         if (boundary_between(nc.seq_begin - 1, nc.client_close_seq + 1)) continue;
         if (multi_gen_active(nc.seq_begin, nc.client_close_seq)) continue;     // may belong to a service that is being wound down
+        {   // the configured authenticator reported failure: the attempt is given up at once
+            bool auth_failed = false;
+            for (auto& l : s.logs) if (l.k == LogRec::auth_step && l.n == 1 && l.ec == (int)ci) auth_failed = true;
+            if (auth_failed) continue;
+        }
         {   // an async_disconnect that finished (its 5 s limit) while this attempt was pending cancels the attempt
             bool ended_by_disconnect = false;
             for (auto& o : s.ops) if (o.kind == OpKind::disconnect && !o.dones.empty() && o.dones[0].seq >= nc.seq_begin && o.dones[0].seq <= nc.client_close_seq + 2) ended_by_disconnect = true;
@@ -275,8 +280,13 @@ void Ctx::c10() {
         uint64_t d = B.sent[bc->connack_sent_idx].delivered_seq;
         auto& nc = *s.net.conns[ci];
         uint64_t end = nc.client_closed ? nc.client_close_seq : UINT64_MAX;
-        for (auto& l : s.logs) if (l.k == LogRec::connack && l.rc == 0 && l.seq >= d && l.seq <= end) return true;
-        return false;
+        bool logged = false;
+        for (auto& l : s.logs) {
+            if (l.k == LogRec::connack && l.rc == 0 && l.seq >= d && l.seq <= end) logged = true;
+            // the authenticator rejected the server's final data: the client abandons the attempt after the CONNACK
+            if (l.k == LogRec::auth_step && l.n == 1 && l.ec == ci) return false;
+        }
+        return logged;
     };
     int wraps_in_streak = 0; int last_success_host = -1; bool k_known = true;
     for (size_t i = 0; i < rl.size(); ++i) {
@@ -531,6 +541,8 @@ void Ctx::c13() {
     {
         for (auto& l : s.logs) {
             if (l.k != LogRec::connack || l.rc != 0) continue;
+            // the authenticator rejected the server's final data right after this CONNACK: the attempt was abandoned, no reconnect ended here
+            if (&l + 1 < s.logs.data() + s.logs.size() && (&l)[1].k == LogRec::auth_step && (&l)[1].step == 2 && (&l)[1].n == 1 && (&l)[1].ec >= 0) continue;
             // generations active when this CONNACK was processed
             std::vector<int> act;
             for (auto& [g, iv] : gen_iv) if (iv.first <= l.seq && iv.second >= l.seq) act.push_back(g);
